@@ -883,7 +883,7 @@ func ruleTAB3(w *World) []Ob {
 					}
 				}
 				nCreate++
-				if isFileSide != "true" {
+				if isFileSide != "true" && !calledOnlyOnTrueSide(p, f, fn, fam, 0) {
 					problems = append(problems, "a file is created at "+p.InstrPos(c)+" outside the isFile side")
 				}
 			})
@@ -2308,4 +2308,30 @@ func siblingExtract2(v ssa.Value, idx int) *ssa.Extract {
 		}
 	}
 	return nil
+}
+
+// calledOnlyOnTrueSide: every call of f inside the family lies on the true side of the predicate pred (directly, or in
+// a function of which the same holds): f is a helper of the "it is a file" branch.
+func calledOnlyOnTrueSide(p *Prog, f, pred *ssa.Function, fam map[*ssa.Function]bool, depth int) bool {
+	if depth > 3 {
+		return false
+	}
+	n := 0
+	for _, ci := range p.Callers(f) {
+		if !fam[ci.Parent()] || ci.Parent() == f {
+			continue
+		}
+		n++
+		onTrue := false
+		for _, g := range guardsOf(ci.(ssa.Instruction).Block()) {
+			cd, pol := flattenCond(g.Cond, g.Pol)
+			if cc, ok := cd.(*ssa.Call); ok && cc.Common().StaticCallee() == pred && pol {
+				onTrue = true
+			}
+		}
+		if !onTrue && !calledOnlyOnTrueSide(p, ci.Parent(), pred, fam, depth+1) {
+			return false
+		}
+	}
+	return n > 0
 }
